@@ -58,6 +58,20 @@ def fill_receivers(repo, cls, f):
                 for x in ast.walk(tgt):
                     if isinstance(x, ast.Name):
                         var_src.setdefault(x.id, set()).update(attrs)
+    # plain copies and selections propagate the source slots (`ret = sub`, `target = ret`, `x = a if c else b`)
+    changed = True
+    while changed:
+        changed = False
+        for n in walk_local_stmt(f.node):
+            if isinstance(n, ast.Assign) and len(n.targets) == 1 and isinstance(n.targets[0], ast.Name):
+                v = n.value
+                parts = [v.body, v.orelse] if isinstance(v, ast.IfExp) else [v]
+                for pv in parts:
+                    if isinstance(pv, ast.Name) and pv.id in var_src:
+                        cur = var_src.setdefault(n.targets[0].id, set())
+                        if not var_src[pv.id] <= cur:
+                            cur |= var_src[pv.id]
+                            changed = True
     out = {}
     for n in walk_local_stmt(f.node):
         if isinstance(n, ast.Call) and is_child_fill(n):
